@@ -12,8 +12,8 @@ TECH = "bounded symbolic execution of the real Python source (sx engine: import-
 
 INFO = {
     "C01": {
-        "text": "Bounded symbolic model checking of the real SCTP send/receive code: fragmentation round trip, receive-side BMC over solver-chosen arrival schedules (loss, duplication, reordering) with symbolic 32-bit TSN / 16-bit SSN origins and symbolic payload bytes, one-step inductive check of the receiver from an arbitrary invariant-satisfying state, and an end-to-end send->receive round trip for str/bytes.",
-        "note": "Bounds: <=2 streams, <=4 chunks, <=6 arrivals, messages <=3 fragments; DTLS transport stubbed by a datagram list; asyncio.ensure_future/call_later stubbed; z3 and the proxy library are trusted (proxies are cross-validated against CPython on every run).",
+        "text": "Bounded symbolic model checking of the real SCTP send/receive code: fragmentation round trip, receive-side BMC over solver-chosen arrival schedules (loss, duplication, reordering) with symbolic 32-bit TSN / 16-bit SSN origins and symbolic payload bytes, and an end-to-end send->receive round trip for str/bytes (full Unicode, both empties).",
+        "note": "Bounds: <=2 streams, <=4 chunks, 4 (quick) / 5-6 arrivals, messages <=3 fragments; fragmentation over a sweep of 9 / 18 boundary lengths up to 65536 (lengths are not symbolic); DTLS transport stubbed by a datagram list; asyncio.ensure_future/call_later stubbed; z3 and the proxy library are trusted (proxies are cross-validated against CPython on every run).",
         "ref": "DESIGN.md 4 C01",
     },
     "C02": {
@@ -22,8 +22,8 @@ INFO = {
         "ref": "DESIGN.md 4 C02",
     },
     "C03": {
-        "text": "Partial: the pure negotiation kernels (direction algebra, codec / header-extension intersection, answer mirroring of m-lines) are executed symbolically against a reference model; connectivity over ICE/DTLS is outside.",
-        "note": "Bounds: <=3 m-lines, <=4 codecs per side. Not claimed: that the negotiated session actually connects (C libraries, sockets).",
+        "text": "Partial: (i) the negotiation kernels (direction algebra, find_common_codecs with symbolic payload types / apt, preferences, header extensions) are executed symbolically against reference conditions; (ii) a BMC over configurations drives one real offer/answer round between two real RTCPeerConnection objects (solver-chosen transceiver kinds/directions on both sides, data channel, codec preference, bundle policies) and checks stable/stable, mirrored m-lines, BUNDLE group, offered codecs with the offerer's payload types, RTX next to its base, header-extension ids, definite DTLS role, complementary current directions. Connectivity over ICE/DTLS/SCTP is outside.",
+        "note": "Bounds: offer of <=3 remote codecs (kernels); <=2 (quick) / <=3 offerer and <=1 / <=2 answerer transceivers, 2 / 9 bundle policy pairs (real objects). Not claimed: that the negotiated session actually connects and that data channels open (aioice sockets, OpenSSL), follow-up negotiations.",
         "ref": "DESIGN.md 4 C03",
     },
     "C04": {
@@ -33,7 +33,7 @@ INFO = {
     },
     "C05": {
         "text": "No-crash harnesses: every byte of a bounded-length datagram is symbolic; the real RTP/RTCP/SCTP/codec parsers and receive handlers are executed on it; any exception other than ValueError escaping, or a path exceeding the unwinding budget (hang), is a violation candidate replayed on the plain code.",
-        "note": "Bounds: RTP/RTCP datagrams <=24 B quick / <=48 B thorough; SCTP common header + <=12 B of chunks quick / <=32 B thorough; crc32c stubbed so that every structured input passes the checksum; OpenSSL/libsrtp outside.",
+        "note": "Bounds: RTP/RTCP datagrams <=20 B quick / <=24 B thorough (first one or two bytes fixed per job; NACK bitmasks restricted to 3 free bits); SCTP common header + 4..12 B of chunks quick / up to 24 B thorough in 7 association states, plus structure-aware DATA/DCEP, two-DATA and SACK-gap harnesses; real receiver / sender RTCP handlers with payloads <=8 / 12 B. crc32c stubbed so that every structured input passes the checksum (replays carry the real CRC); hangs = paths over the decision budget or a 30 s path cap, confirmed by a concrete replay under a 2 s watchdog; OpenSSL/libsrtp outside.",
         "ref": "DESIGN.md 4 C05",
     },
     "C06": {
@@ -48,12 +48,12 @@ INFO = {
     },
     "C08": {
         "text": "Round trip of every chunk class through the real serialize_packet/parse_packet with symbolic fields (crc32c as an uninterpreted deterministic function), plus a bit-precise CRC32c model (validated against google_crc32c each run) for the burst-error clause.",
-        "note": "Bounds: user data <=8 B symbolic plus a sweep of lengths 1..1200; <=3 params/gaps/streams; bursts on packets of 16..64 B. One protocol-inherent known finding (bursts straddling the checksum field).",
+        "note": "Bounds: user data <=8 B fully symbolic plus a length sweep (quick 36 lengths, thorough every length 1..1200) with symbolic sentinels; <=3 params/gaps/streams; bursts: every start offset and all patterns of <=32 bits on real serialize_packet outputs of 28..64 B (quick 3 shapes, thorough 8 + sampled offsets up to 1212 B), bit order = CRC order. One protocol-inherent known finding (bursts straddling the checksum field, KF-C08-straddling-burst).",
         "ref": "DESIGN.md 4 C08",
     },
     "C09": {
         "text": "Round trip of ICE candidates and of SessionDescription objects built from symbolic fields through the real __str__/parse (symbolic strings with lazy decimal atoms, regex interpreter for the m= line).",
-        "note": "Bounds: <=2 m-lines, <=2 codecs, tokens of 1-2 symbolic characters; arbitrary character-level SDP text is outside.",
+        "note": "Bounds: <=2 m-lines, <=2 codecs, tokens of 1-2 symbolic lower-case letters, integers over their full ranges as lazy decimal atoms, enumerated attributes varied along 3 (quick) / 6 variant indices (not their product); arbitrary character-level SDP text, descriptions produced by real createOffer/createAnswer (exercised concretely by C14/C03) and contrib.signaling (json) are outside.",
         "ref": "DESIGN.md 4 C09",
     },
     "C10": {
@@ -77,13 +77,13 @@ INFO = {
         "ref": "DESIGN.md 4 C13",
     },
     "C14": {
-        "text": "One symbolic step of the JSEP state machine from every abstract signalling state with a solver-chosen call and symbolic description defects; successor state and side-effect freedom of failing calls are asserted.",
-        "note": "Bounds: <=2 m-lines; sdp text parsing replaced by prepared description objects; transports are no-ops.",
+        "text": "BMC over API call sequences on two real RTCPeerConnection objects driven on a private real event loop: at every step the solver chooses the peer, the call (createOffer, createAnswer, setLocal offer/answer/implicit, setRemote offer/answer/defective with 7 defect kinds, close); after every call signalingState and both descriptions are compared with the JSEP table, failing calls must raise InvalidStateError / ValueError and leave everything unchanged, closed must be absorbing.",
+        "note": "Bounds: every sequence of <=3 (quick) / <=4 calls on either peer; offerer with a data channel or data channel + audio transceiver. All data is concrete here (the solver decides the call sequence and the injected defect); pranswer/rollback outside.",
         "ref": "DESIGN.md 4 C14",
     },
     "C15": {
-        "text": "Partial: RateCounter window arithmetic, AIMD controller helpers and skeleton, estimator orchestration and REMB encodability executed symbolically; floats handled by conversion-site contracts and interval over-approximation; the Kalman/overuse pipeline is stubbed.",
-        "note": "Bounds: window <=8 ms buckets, <=4 packets, AIMD depth <=3.",
+        "text": "Partial: RateCounter window arithmetic (BMC over add/rate sequences with symbolic times and sizes), the AIMD helpers _near_max_rate_increase / _additive_rate_increase / _clamp_bitrate (1.5x + 10 kbit/s bound, no exception), the estimator orchestration (SSRC list, REMB encodability) with the Kalman/over-use pipeline and the AIMD update stubbed by arbitrary values, and a concrete-count run with 256 SSRCs.",
+        "note": "Not claimed: AimdRateControl.update itself (round(0.85*T), sqrt, pow: floats beyond the rational abstraction), the 85 % cut, InterArrival / OveruseEstimator / OveruseDetector numerics. Bounds: window 2..3 (quick) / 2..8 ms, sequences of 4..5 calls, <=3 packets in the orchestration. Quotients of integers are evaluated as exact rationals; the sites are listed in evidence.",
         "ref": "DESIGN.md 4 C15",
     },
     "C16": {
@@ -92,8 +92,8 @@ INFO = {
         "ref": "DESIGN.md 4 C16",
     },
     "C17": {
-        "text": "Serial-arithmetic lemmas over the full 16/32-bit domains (one unsat query each, cross-checked with CrossHair) and relational (origin-shift) checks of every step function that compares or sorts sequence numbers.",
-        "note": "Lemmas are unbounded in the values; relational steps at the state bounds of C01/C10/C11/C18.",
+        "text": "Serial-arithmetic lemmas over the full 16/32-bit domains (one unsat query each) and relational (origin-shift, 2-safety) checks: jitter buffer, NACK generator, receiver statistics, timestamp mapper, SCTP receiver incl. SACK gap blocks and SCTP sender SACK processing are run twice inside one path (symbolic origin vs small concrete origin) and all observables must agree after un-shifting.",
+        "note": "Lemmas are unbounded in the values; relational scenarios of 2..3 (quick) / 2..5 steps with small symbolic relative offsets. The BMC harnesses of C01/C02/C06/C10/C11/C18 additionally run with symbolic origins and near-wrap variants.",
         "ref": "DESIGN.md 4 C17",
     },
     "C18": {
